@@ -50,6 +50,7 @@ type Engine struct {
 	// free-running goroutines waiting for a lock (not part of the schedule)
 	freeWaiters []*parkedG
 	lockSeq     map[string]int // per goroutine name: number of hooked lock acquisitions so far
+	wmBacklog   map[string]int // per watermark goroutine name: marks sent since it last ran
 	names       map[int64]string
 	autoRole    map[int64]string
 	nameCount   map[string]int
@@ -95,6 +96,7 @@ func NewEngine(s Sched, groups []string) *Engine {
 	e := &Engine{
 		names:     map[int64]string{},
 		lockSeq:   map[string]int{},
+		wmBacklog: map[string]int{},
 		autoRole:  map[int64]string{},
 		nameCount: map[string]int{},
 		noYield:   map[int64]int{},
@@ -150,6 +152,13 @@ func (e *Engine) Install() {
 		}
 	}
 	vhook.EventKVFn = func(kind string, k, v []byte, a, b uint64) {
+		if kind == "wm.begin" || kind == "wm.done" {
+			// marks queued for the watermark goroutine of this name (its channel holds 100 and
+			// Begin is sent under the oracle lock: see decideLocked)
+			e.mu.Lock()
+			e.wmBacklog["wm:"+string(k)]++
+			e.mu.Unlock()
+		}
 		if f := e.OnEvent; f != nil {
 			f(goid(), kind, a, b, k, v)
 		}
@@ -548,6 +557,9 @@ func (e *Engine) Run(done func() bool, maxSteps uint64) RunResult {
 			e.Switches++
 		}
 		e.last = pick.name
+		if strings.HasPrefix(pick.name, "wm:") && e.wmBacklog[pick.name] > 0 {
+			e.wmBacklog[pick.name]-- // one mark per run of the watermark goroutine
+		}
 		e.mix(pick.name)
 		e.mix(pick.site)
 		if e.KeepTrace {
@@ -602,6 +614,9 @@ func (e *Engine) decideLocked(elig []*parkedG) *parkedG {
 			k = 5
 			if e.sched.WmLeash > 0 {
 				k = e.sched.WmLeash
+			}
+			if e.wmBacklog[p.name] >= 60 {
+				k = 0 // its channel is filling up (merge operators open many transactions per step): run it now
 			}
 		}
 		if p.passed >= k && (starving == nil || p.passed-k > starving.passed-e.fairnessK) {
